@@ -1,6 +1,6 @@
 import Proofs.C16EventsAgreeRefresh
 /-! helper lemmas: after a refresh every host id that is new in the ring has a pool; the stored object of
-every accepted reported host carries the reported addresses -/
+every accepted reported host id carries the addresses of its first accepted row -/
 namespace C16
 open Ring ClusterView
 
@@ -36,7 +36,7 @@ theorem hasKey_erase (m : List (Nat × RHost)) (k k' : Nat) :
     exact ⟨e, (mem_erase _ _ _).mpr ⟨he, hne⟩, rfl⟩
 
 theorem newFilled_refresh (env : Env) (v : View) (reported : List RHost) :
-    NewFilled v.ring (v.refresh env reported).1 := by
+    NewFilled v.ring (v.refresh env reported) := by
   apply refreshV_preserves env (NewFilled v.ring)
   · intro w h hp _ id hid hnew
     unfold View.addNew View.startPoolFill at hid ⊢
@@ -53,175 +53,17 @@ theorem newFilled_refresh (env : Env) (v : View) (reported : List RHost) :
     exact ⟨hp id this.1 hnew, this.2⟩
   · intro id hid hnew; exact absurd hid hnew
 
-/-! the stored object of every processed host carries the reported addresses -/
+/-! the stored object of every reported id carries the addresses of the first accepted row of that id -/
 
 def SameAddrs (s h : RHost) : Prop := s.addr = h.addr ∧ s.caddr = h.caddr
 
-structure RepInv (acc : List RHost) (st : RState) : Prop where
-  stored : ∀ h ∈ acc, ∃ s, lookup st.v.ring.byId h.id = some s ∧ SameAddrs s h
-  gone : ∀ h ∈ acc, h.id ∉ keys st.prev
-
-theorem stepV_rep (env : Env) (st : RState) (acc : List RHost) (h : RHost) (hi : AInv env st) (hr : RepInv acc st)
-    (hf : env.filter h = false) (hnew : ∀ x ∈ acc, x.id ≠ h.id) (hok : (refreshStepV env st h).2 = .ok) :
-    RepInv (acc ++ [h]) (refreshStepV env st h).1 := by
-  revert hok
-  unfold refreshStepV
-  simp only [hf, Bool.false_eq_true, ↓reduceIte]
-  cases hl : lookup st.v.ring.byId h.id with
-  | none =>
-    rw [addIfMissing_of_none _ h hl]
-    intro _
-    have hadd := lookup_add_new st.v.ring h hl
-    rw [addIfMissing_of_none _ h hl] at hadd
-    dsimp only at hadd ⊢
-    refine ⟨?_, ?_⟩
-    · intro x hx
-      rcases List.mem_append.mp hx with h1 | h1
-      · obtain ⟨s, hs, hsa⟩ := hr.stored x h1
-        refine ⟨s, ?_, hsa⟩
-        show lookup (put st.v.ring.byId h.id h) x.id = some s
-        rw [hadd]; simp only [hnew x h1, ↓reduceIte]; exact hs
-      · simp only [List.mem_singleton] at h1
-        subst h1
-        exact ⟨x, by show lookup (put st.v.ring.byId x.id x) x.id = some x; rw [hadd]; simp, rfl, rfl⟩
-    · intro x hx hk
-      have hk' := (mem_keys_erase _ _ _).mp hk
-      rcases List.mem_append.mp hx with h1 | h1
-      · exact hr.gone x h1 hk'.1
-      · simp only [List.mem_singleton] at h1; subst h1; exact hk'.2 rfl
-  | some e0 =>
-    rw [addIfMissing_of_some _ h e0 hl]
-    dsimp only
-    cases hlp : lookup st.prev h.id with
-    | none => intro e; cases e
-    | some ex =>
-      dsimp only
-      have hmem : (h.id, ex) ∈ st.prev := lookup_some_mem _ _ _ hlp
-      have hcur : lookup st.v.ring.byId h.id = some ex := hi.prevIn _ hmem
-      have hexid : ex.id = h.id := hi.agree.sinv.wf _ (lookup_some_mem _ _ _ hcur)
-      by_cases hcond : (h.caddr == ex.caddr && h.addr == ex.addr) = true
-      · rw [if_pos hcond]
-        intro _
-        refine ⟨?_, ?_⟩
-        · intro x hx
-          rcases List.mem_append.mp hx with h1 | h1
-          · exact hr.stored x h1
-          · simp only [List.mem_singleton] at h1
-            subst h1
-            simp only [Bool.and_eq_true, beq_iff_eq] at hcond
-            exact ⟨ex, hcur, hcond.2.symm, hcond.1.symm⟩
-        · intro x hx hk
-          have hk' := (mem_keys_erase _ _ _).mp hk
-          rcases List.mem_append.mp hx with h1 | h1
-          · exact hr.gone x h1 hk'.1
-          · simp only [List.mem_singleton] at h1; subst h1; exact hk'.2 rfl
-      · rw [if_neg hcond]
-        have hl2 : lookup (st.v.removeHost env ex).ring.byId h.id = none := by
-          rw [removeHost_ring, lookup_remove, hexid]; simp
-        rw [addIfMissing_of_none _ h hl2]
-        intro _
-        have hadd := lookup_add_new (st.v.removeHost env ex).ring h hl2
-        rw [addIfMissing_of_none _ h hl2] at hadd
-        dsimp only at hadd ⊢
-        refine ⟨?_, ?_⟩
-        · intro x hx
-          rcases List.mem_append.mp hx with h1 | h1
-          · obtain ⟨s, hs, hsa⟩ := hr.stored x h1
-            refine ⟨s, ?_, hsa⟩
-            show lookup (put (st.v.removeHost env ex).ring.byId h.id h) x.id = some s
-            rw [hadd]; simp only [hnew x h1, ↓reduceIte]
-            rw [removeHost_ring, lookup_remove, hexid]
-            simp only [hnew x h1, ↓reduceIte]; exact hs
-          · simp only [List.mem_singleton] at h1
-            subst h1
-            exact ⟨x, by show lookup (put (st.v.removeHost env ex).ring.byId x.id x) x.id = some x; rw [hadd]; simp, rfl, rfl⟩
-        · intro x hx hk
-          have hk' := (mem_keys_erase _ _ _).mp hk
-          rcases List.mem_append.mp hx with h1 | h1
-          · exact hr.gone x h1 hk'.1
-          · simp only [List.mem_singleton] at h1; subst h1; exact hk'.2 rfl
-
-def accepted (env : Env) (reported : List RHost) : List RHost := reported.filter (fun h => !env.filter h)
-
-theorem loopV_rep (env : Env) (reported : List RHost) : ∀ (st : RState) (acc : List RHost), AInv env st → RepInv acc st →
-    ((acc ++ accepted env reported).map (·.id)).Nodup → (refreshLoopV env reported st).2 = .ok →
-    RepInv (acc ++ accepted env reported) (refreshLoopV env reported st).1 := by
-  induction reported with
-  | nil => intro st acc _ hr _ _; simpa [accepted, refreshLoopV] using hr
-  | cons h t ih =>
-    intro st acc hi hr hn hok
-    unfold refreshLoopV at hok ⊢
-    cases hf : env.filter h with
-    | true =>
-      have e1 : refreshStepV env st h = (st, .ok) := by unfold refreshStepV; simp [hf]
-      rw [e1] at hok ⊢
-      simp only [↓reduceIte] at hok ⊢
-      have e2 : accepted env (h :: t) = accepted env t := by simp [accepted, hf]
-      rw [e2] at hn ⊢
-      exact ih st acc hi hr hn hok
-    | false =>
-      have e2 : accepted env (h :: t) = h :: accepted env t := by simp [accepted, hf]
-      rw [e2] at hn ⊢
-      have hstep := stepV_agree env st h hi
-      have hnew : ∀ x ∈ acc, x.id ≠ h.id := by
-        intro x hx heq
-        simp only [List.map_append, List.map_cons] at hn
-        have := (List.nodup_append.mp hn).2.2 x.id (List.mem_map.mpr ⟨x, hx, rfl⟩) h.id List.mem_cons_self
-        exact this heq
-      have hrep := stepV_rep env st acc h hi hr hf hnew
-      generalize refreshStepV env st h = res at hok hstep hrep ⊢
-      obtain ⟨st', res'⟩ := res
-      dsimp only at hok hstep hrep ⊢
-      by_cases hres : res' = .ok
-      · rw [if_pos hres] at hok ⊢
-        have := ih st' (acc ++ [h]) (hstep.2 hres) (hrep hres) (by simpa [List.append_assoc] using hn) hok
-        simpa [List.append_assoc] using this
-      · rw [if_neg hres] at hok
-        exact absurd hok hres
-
-theorem removeAllV_lookup (env : Env) (prev : List (Nat × RHost)) : ∀ (v : View) (k : Nat), k ∉ keys prev →
-    (∀ e ∈ prev, e.2.id = e.1) → lookup (removeAllV env v prev).ring.byId k = lookup v.ring.byId k := by
-  induction prev with
-  | nil => intro v k _ _; rfl
-  | cons p t ih =>
-    intro v k hk hw
-    obtain ⟨k0, x⟩ := p
-    simp only [removeAllV]
-    simp only [keys, List.map_cons, List.mem_cons, not_or] at hk
-    rw [ih _ k hk.2 (fun e he => hw e (List.mem_cons_of_mem _ he)), removeHost_ring, lookup_remove]
-    have : x.id = k0 := hw (k0, x) List.mem_cons_self
-    rw [this]
-    simp [hk.1]
-
-/-- after a successful refresh with distinct accepted ids, the ring's object of every accepted reported
-host carries the reported node address and connect address (changed address ⇒ replaced) -/
-theorem stored_refresh (env : Env) (v : View) (ha : Agree env v) (reported : List RHost)
-    (hn : ((accepted env reported).map (·.id)).Nodup) (hok : (v.refresh env reported).2 = .ok) :
-    ∀ h ∈ reported, env.filter h = false →
-      ∃ s, lookup (v.refresh env reported).1.ring.byId h.id = some s ∧ SameAddrs s h := by
-  have h0 : AInv env ⟨v, v.ring.byId⟩ :=
-    ⟨ha, fun e he => lookup_of_mem_nodup _ ha.sinv.knodup e he, ha.sinv.knodup⟩
-  have hag := loopV_agree env reported ⟨v, v.ring.byId⟩ h0
-  have hrep := loopV_rep env reported ⟨v, v.ring.byId⟩ [] h0 ⟨by simp, by simp⟩ (by simpa using hn)
-  unfold View.refresh at hok ⊢
-  generalize refreshLoopV env reported ⟨v, v.ring.byId⟩ = res at hok hag hrep ⊢
-  obtain ⟨st', res'⟩ := res
-  dsimp only at hok hag hrep ⊢
-  cases res' with
-  | ok =>
-    have hi := hag.2 rfl
-    have hr := hrep rfl
-    simp only [List.nil_append] at hr
-    intro h hh hf
-    have hacc : h ∈ accepted env reported := List.mem_filter.mpr ⟨hh, by simp [hf]⟩
-    obtain ⟨s, hs, hsa⟩ := hr.stored h hacc
-    refine ⟨s, ?_, hsa⟩
-    dsimp only
-    rw [removeAllV_lookup env st'.prev st'.v h.id (hr.gone h hacc)]
-    · exact hs
-    · intro e he
-      exact hi.agree.sinv.wf _ (lookup_some_mem _ _ _ (hi.prevIn e he))
-  | errCannotFind => cases hok
-  | errAlreadyExists => cases hok
+/-- after a refresh the ring's object of every accepted reported host id carries the node address and
+connect address of the FIRST accepted row of that id (changed address ⇒ replaced) -/
+theorem stored_refresh (env : Env) (v : View) (ha : Agree env v) (reported : List RHost) (id : Nat) (h : RHost)
+    (hl : lookup (reportedMap env.filter reported) id = some h) :
+    ∃ s, lookup (v.refresh env reported).ring.byId id = some s ∧ SameAddrs s h := by
+  rw [refreshV_ring]
+  obtain ⟨s, hs, h1, h2, _⟩ := refresh_stored v.ring ha.sinv.wf ha.sinv.knodup env.filter reported id h hl
+  exact ⟨s, hs, h1, h2⟩
 
 end C16
